@@ -18,7 +18,7 @@ func init() {
 		Assumptions: []string{"fault model of DESIGN.md 2.4 (no write error after the peer processed the bytes, no partial writes)", "identical subscribe/unsubscribe requests are matched by count", "runs in which two in-flight messages got the same packet id (ids are re-randomised per connection) are skipped as ambiguous"},
 		Gen: func(tier string, seed int64) []fw.Case {
 			return genRetry(retrySpec{
-				Workloads:   []string{"q1x3", "q2x2", "mixed", "pre", "waits", "outage", "outage2", "preset", "subs1", "idlecut", "echo", "ka", "respond"},
+				Workloads:   []string{"q1x3", "q2x2", "mixed", "pre", "waits", "outage", "outage2", "preset", "subs1", "idlecut", "echo", "ka", "respond", "sw1"},
 				Configs:     withClients(cfgs(pick(tier, []string{"A"}, allMethods), []string{"keep", "lose"}, []bool{false}), 2, "retry", "retry-retryfirst", "retry-chaotic"),
 				Singles:     true,
 				Pairs:       pick(tier, nil, []string{"q1x3", "q2x2", "pre"}),
@@ -50,7 +50,7 @@ func init() {
 		Assumptions: []string{"exactly-once is only asserted when the broker kept the session", "a PUBCOMP that arrives together with the cut may legitimately be followed by one more PUBREL (select race in the library)"},
 		Gen: func(tier string, seed int64) []fw.Case {
 			return genRetry(retrySpec{
-				Workloads:   []string{"q2x1", "q2x2", "q2x3", "q2mix", "q2sub", "mixed", "preset", "echo"},
+				Workloads:   []string{"q2x1", "q2x2", "q2x3", "q2mix", "q2sub", "mixed", "preset", "echo", "sw1"},
 				Configs:     withClients(cfgs(allMethods, []string{"keep"}, []bool{false, true}), 1, "retry"),
 				Singles:     true,
 				Pairs:       pick(tier, []string{"q2x1", "q2x2"}, []string{"q2x1", "q2x2", "q2x3", "q2mix"}),
@@ -127,7 +127,7 @@ func init() {
 		Assumptions: []string{"DUP is defined on attempts: a PUBLISH whose local Write failed counts as first transmission", "after a failed PUBREL write the library falls back to PUBLISH(dup)", "messages identified by payload tag, never by id"},
 		Gen: func(tier string, seed int64) []fw.Case {
 			return genRetry(retrySpec{
-				Workloads:   []string{"q1x3", "q2x2", "q2x3", "q2mix", "mixed", "preset", "outage", "echo"},
+				Workloads:   []string{"q1x3", "q2x2", "q2x3", "q2mix", "mixed", "preset", "outage", "echo", "sw1"},
 				Configs:     withClients(cfgs(allMethods, []string{"keep", "lose"}, []bool{false})[:scale(tier, 2, 4)], 1, "retry"),
 				Singles:     true,
 				Pairs:       pick(tier, []string{"q2x2"}, []string{"q2x2", "q2x3", "preset"}),
@@ -151,8 +151,8 @@ func init() {
 		Assumptions: []string{"release of an inbound QoS 2 message whose PUBLISH arrived on an earlier connection is not asserted", "the last packet consumed on a connection is not judged (its handler may still be running)"},
 		Gen: func(tier string, seed int64) []fw.Case {
 			return genRetry(retrySpec{
-				Workloads:   []string{"in1", "in2", "in3", "in4", "in5", "in6"},
-				Configs:     withClients(cfgs([]string{"A"}, []string{"keep", "lose"}, []bool{false}), 1, "retry"),
+				Workloads:   []string{"in1", "in2", "in3", "in4", "in5", "in6", "in7", "in8"},
+				Configs:     withClients(cfgs([]string{"A"}, []string{"keep", "lose"}, []bool{false}), 1, "retry", "retry-retryfirst"),
 				Singles:     true,
 				PairsSample: scale(tier, 60, 4000),
 				Random:      scale(tier, 100, 12000),
